@@ -39,6 +39,22 @@ def binding_selftest():
     corrupt("file-lags", "file", lambda ev: ev[1]["io"]["file"].pop())
     corrupt("raised-read", "raises", lambda ev: ev[2].__setitem__("exc", "KeyError"))
     corrupt("not-append-only", "append", lambda ev: ev[3]["io"]["calls"][1].__setitem__("prefix", 0))
+    # a fault run (OSError injected at the first I/O call of the second insert): accepted as recorded, rejected when the
+    # caller is said not to have seen the error, or when a file is said to have been left behind
+    fj = ("fbase", 1, ops, 1, 0, 0, {"t": 3, "m": 1, "tg": [-2, -2, -2], "fd": [-2, -2, -2]},
+          [{"op": "len", "m": -1}, {"op": "all", "m": -1, "sorted": 0}], {})
+    fbase = traces.record_faults([fj], nproc=1)[0]
+    if not fbase["events"][-1]["fault"]["injected"]:
+        return ["binding self-test: the fault of the fault run was not injected"], len(variants)
+    variants.append(("fault-pristine", None, fbase))
+
+    def fcorrupt(name, clause, fn):
+        t = copy.deepcopy(fbase)
+        t["id"] = name
+        fn(t["events"][-1]["fault"])
+        variants.append((name, clause, t))
+    fcorrupt("fault-swallowed", "fault_reported", lambda f: f.__setitem__("oserr", 0))
+    fcorrupt("fault-temp-left", "fault_tmp", lambda f: f.__setitem__("tmp", 1))
     verdicts, _ = traces.judge([t for _, _, t in variants], workers=2)
     bad = []
     for name, clause, t in variants:
